@@ -303,13 +303,15 @@ def edge_histories(exe):
                         elif k == "vec":
                             v, st = alloc("alloc vec 3", st); st = do("setvec %d 2 %d" % (v, cur)); cur = v
                         elif k == "arr":
-                            a, st = alloc("alloc arr 3", st); st = do("setarr %d 1 %d" % (a, cur)); cur = a
+                            a, st = alloc("alloc arr 3", st); st = do("setarr %d 0 %d" % (a, cur)); st = do("setarr %d 1 %d" % (a, cur)); cur = a
                     if not ok or cur is None or st is None:
                         im.close(); continue
                     if holder == "vec":
                         h, st = alloc("alloc vec 2", st); st = do("setvec %d 1 %d" % (h, cur))
                     elif holder == "arr":
-                        h, st = alloc("alloc arr 2", st); st = do("setarr %d 1 %d" % (h, cur))
+                        # every slot of the array holds the reference (arrays are homogeneous in real programs; a marker that
+                        # looks at the first element to decide how to treat the rest must still follow it)
+                        h, st = alloc("alloc arr 2", st); st = do("setarr %d 0 %d" % (h, cur)); st = do("setarr %d 1 %d" % (h, cur))
                     else:
                         h, st = alloc("alloc arr 2 2", st); st = do("setarr %d 3 %d" % (h, cur))
                     if h is None:
